@@ -383,6 +383,9 @@ def run(cx: Cx):
                              f"default collector no longer runs after default systems", where=cx.where(ctor))
         else:
             cx.inconclusive('R-FWD', f"{c} default priority", "default priority is not a constant", where=cx.where(ctor))
+    from .common import include_premises
+    include_premises(cx, ['C05'], 'systems run in queue order only if the scheduler walks an unmodified same-order snapshot of the queue',
+                     only=lambda o: o.rule == 'R-ITER' and 'snapshot' in o.key)
 
 
 def check_remove_pairing(cx: Cx):
